@@ -113,6 +113,16 @@ class ForIter:
 
 
 @dataclass(eq=False)
+class TestAtom:
+    """The evaluation of a branch condition (after its sub-expressions): lets rules see reads made by a test."""
+    test: ast.AST
+
+    @property
+    def lineno(self) -> int:
+        return getattr(self.test, "lineno", 0)
+
+
+@dataclass(eq=False)
 class FnExit:
     """Implicit fall-off-the-end return."""
     fn: FunctionInfo
@@ -413,6 +423,9 @@ class Interp:
     # -------------------------------------------------------------------------------- branching
     def _branch(self, test: ast.AST, facts: FactMap) -> tuple[Out, FactMap, FactMap]:
         ev = self.exec_expr(test, facts)
+        ta = self.exec_atom(TestAtom(test), ev.normal)
+        ev.merge_abrupt(ta)
+        ev.normal = ta.normal
         tmap: FactMap = {}
         fmap: FactMap = {}
         const = _const_truth(test)
@@ -616,8 +629,10 @@ class Interp:
                 for extok in self.a.may_raise(wx, fact):
                     for rf in self.a.raise_fact(wx, fact, extok):
                         out.add_exc(extok, rf, tr2)
-                for k2, t2, f2 in self.a.with_exit(wx, fact):
-                    out.put(k2, t2, f2, tr2)
+                self.atoms_walked += 1
+                for fact2 in self.a.transfer(wx, fact):
+                    for k2, t2, f2 in self.a.with_exit(wx, fact2):
+                        out.put(k2, t2, f2, tr2)
         return out
 
     def st_With(self, st: ast.With, facts: FactMap) -> Out:
